@@ -30,7 +30,7 @@ m = {
         "guard": "cargo feature `verif-hooks` (source hook in /repo); cfg(kani) (harness modules appended to scratch copies only)",
         "enable": "native replay builds /repo with `--features verif-hooks` (native/Cargo.toml); Kani checks copy /repo's working tree to a scratch directory and appends `#[cfg(kani)] #[path = \"/verif/kani/<m>.rs\"] mod __verif;` lines to the copy (cargo-kani sets cfg(kani)); the MIR engine reads rustc's MIR of the unmodified sources",
         "baseline_off_cmd": "cd /repo && cargo test --workspace --no-fail-fast --offline",
-        "source_commits": ["0b78bbd"],
+        "source_commits": ["0b78bbd", "6c5d37b"],
         "add_only": True,
     },
     "engines": md.ENGINES,
